@@ -42,6 +42,8 @@ pub struct ScnConfig {
     pub transport: String, // "tcp" | "http"
     pub recreate_missing_state: bool,
     pub max_tokens_per_user: u32,
+    /// server runtime: 0 = current-thread (driven by the harness thread), n = multi-thread with n workers
+    pub threads: u32,
 }
 
 impl Default for ScnConfig {
@@ -61,6 +63,7 @@ impl Default for ScnConfig {
             transport: "tcp".into(),
             recreate_missing_state: true,
             max_tokens_per_user: 100,
+            threads: 0,
         }
     }
 }
@@ -90,7 +93,7 @@ pub fn build_config(path: &str, c: &ScnConfig, key: &str) -> Arc<SystemConfig> {
         s.cache.size = "512 MB".parse().expect("cache size");
     }
     s.message_deduplication.enabled = c.dedup;
-    s.message_deduplication.max_entries = 1_000_000;
+    s.message_deduplication.max_entries = 5_000; // far out of reach of any scenario (moka pre-sizes its sketch from this)
     s.message_deduplication.expiry = IggyDuration::new_from_secs(3600 * 24 * 365);
     s.encryption.enabled = c.encryption;
     s.encryption.key = key.to_string();
@@ -114,11 +117,20 @@ pub struct Incarnation {
 pub fn start(config: Arc<SystemConfig>, scn: &ScnConfig, with_http: bool) -> Result<Incarnation, String> {
     server::streaming::systems::streams::verif_reset_process_globals();
     let t0 = std::time::Instant::now();
-    let rt = tokio::runtime::Builder::new_multi_thread()
-        .worker_threads(2)
-        .enable_all()
-        .build()
-        .map_err(|e| e.to_string())?;
+    // Sequential lenses drive everything (server tasks and SDK client calls) from the calling thread through
+    // `rt.block_on`: no cross-thread wake-ups, deterministic scheduling; file I/O still runs on tokio's blocking pool.
+    let rt = if scn.threads == 0 {
+        tokio::runtime::Builder::new_current_thread()
+            .enable_all()
+            .build()
+            .map_err(|e| e.to_string())?
+    } else {
+        tokio::runtime::Builder::new_multi_thread()
+            .worker_threads(scn.threads as usize)
+            .enable_all()
+            .build()
+            .map_err(|e| e.to_string())?
+    };
     let pat = PersonalAccessTokenConfig {
         max_tokens_per_user: scn.max_tokens_per_user,
         ..PersonalAccessTokenConfig::default()
